@@ -100,9 +100,15 @@ def check_trees(ctx, name: str, trees: List[ts.Tree], seen_texts: set, exhaustiv
                 def recheck(item=item, w=w, expected=expected):
                     r2 = fc_item((item[0], item[1], (w,)))[0]
                     return None if _judge(expected, r2) is None else list(r2)
+
+                def history(item=item, w=w, expected=expected):
+                    for w2, r2 in zip(item[2], fc_item(item)):
+                        if w2 == w:
+                            return None if _judge(expected, r2) is None else list(r2)
+                    return None
                 viol.add(len(text), f"{text}|{w}", f"{text!r} under {truth}: {problem}",
                          {"format_constraints_expression": text, "fc": truth, "expected_fulfilled": expected,
-                          "observed": list(r)}, recheck, _snippet(text, keys, w))
+                          "observed": list(r)}, recheck, _snippet(text, keys, w), history=history)
     viol.flush()
     ctx.bounded(name, evaluations, distinct,
                 "distinct (expression text, truth assignment) pairs whose expression has at least one operator "
